@@ -1,6 +1,6 @@
-"""C04 - Python ZoneSpecifier and C++ extended processor agree (structural clauses): the hand-translated, loop-free helpers
-are the same decision procedures (E-GNF with the ordering abstraction), and both implementations keep date tuples
-in the same normal form."""
+"""C04 - Python ZoneSpecifier and C++ extended processor agree (necessary clauses): the hand-translated helpers give the same
+values when both sides are interpreted on families that put every compared quantity before / at / after its counterpart,
+both implementations keep date tuples in the same normal form, and the reference does not depend on its two options."""
 import ast
 
 from .common import AnalysisError, Report
@@ -17,9 +17,10 @@ META = {
                    'broker\'s own accessors); compareTransitionToMatch (1125 cases: '
                    'every pair of suffixes x every position of the w/s/u times), processActiveTransition (every status x prior x '
                    'flag) and the two look-ups (pools of 0..4 transitions, queries around every start); date-tuple normal form (C++ by interval analysis under C07-R1, Python through datetime arithmetic); '
-                   'match-window pairing of the two init functions; typestate of the recycled prior slot; E-SEQ (explicit-state abstract '
-                   'evaluation of the Python IR, acv/aeval.py): the two active selectors on every sorted abstract candidate list up to six '
-                   'entries, and finder + selector pipelines for both candidate finders on a family of small policies and match '
+                   'match-window pairing of the two init functions; typestate of the recycled prior slot; E-SEQ over the Python ast '
+                   '(acv/pyeval.py) on objects of the module\'s own classes: the two active selectors on every sorted candidate list up to six '
+                   'entries (the comparison with the match abstracted to its status), and finder + selector pipelines for both candidate '
+                   'finders on every policy of one or two rules over the years 2000..2003 plus the anchor rule of year 0, and twenty match '
                    'intervals; decision table of the "A/B" abbreviation half on both sides.',
     'decided': 'the listed helper pairs return the same value (result and field effects) on every member of their stated input family; '
                'both look-up loops keep the last transition whose start <= query; both sides canonicalise date tuples to '
@@ -92,7 +93,8 @@ def run(cfg):
     reserved_slot_rule(R, lib)
     selector_rule(R, zs)
     finder_rule(R, zs)
-    abbrev_rule(R, lib, zs)
+    from . import rules_C04b as _c04b
+    _c04b.abbrev_pair(R, lib, zs)
     pool_rules(R, lib, zs)
     return R
 
